@@ -74,6 +74,7 @@ type PrintState struct {
 	AllParens            bool // print all expressions fully parenthesized.
 	prev                 Node
 	last                 string
+	probing              bool // rendering a statement on the side only to see how it starts
 }
 
 func DebugString(n Node) string {
@@ -204,12 +205,9 @@ func prettyPrintCompact(ps *PrintState, s Node, i int) bool {
 		return true
 	}
 	_, prevIsExpr := ps.prev.(*InfixExpression)
-	_, curIsArray := s.(*ArrayLiteral)
-	// a lambda statement starting with its parameter list, like an array literal, must not touch the previous
-	// statement: f(1)(a,b)=>a would call the result of f(1).
-	if fl, ok := s.(*FunctionLiteral); ok && fl.IsLambda && len(fl.Parameters) != 1 {
-		curIsArray = true
-	}
+	// a statement whose text starts with [ or ( (array literal, lambda parameter list, parenthesized operand) must not
+	// touch the previous statement: f(1)[2] would index and f(1)(a,b)=>a would call the result of f(1).
+	curIsArray := i > 0 && !ps.probing && startsWithBracket(ps, s)
 	// two statements a and b: without a separator the lexer would see the identifier ab.
 	prevEndsWord := ps.last != "" && isWordByte(ps.last[len(ps.last)-1])
 	if curIsArray || (prevIsExpr && ps.last != "}" && ps.last != "]") || prevEndsWord {
@@ -218,6 +216,17 @@ func prettyPrintCompact(ps *PrintState, s Node, i int) bool {
 		}
 	}
 	return false
+}
+
+// startsWithBracket renders the statement on the side and reports whether its compact text starts with [ or (.
+func startsWithBracket(ps *PrintState, s Node) bool {
+	probe := &PrintState{
+		Out: &strings.Builder{}, Compact: true, AllParens: ps.AllParens, probing: true,
+		IndentLevel: ps.IndentLevel, ExpressionPrecedence: ps.ExpressionPrecedence,
+	}
+	s.PrettyPrint(probe)
+	text := probe.String()
+	return text != "" && (text[0] == '[' || text[0] == '(')
 }
 
 // Normal/long form print: Decide if using new line or space as separator.
